@@ -230,11 +230,11 @@ func c11Gen(c *Ctx) (cs c11Case, cell string) {
 			}
 			cell = "int-prefix-base/" + kind.String()
 		case 1:
-			cs.T = TypeSpec{K: KOnOff, W: []Wrap{WScalar, WPtr, WSlice, WSlicePtr}[r.Intn(4)]}
+			cs.T = TypeSpec{K: KOnOff, W: []Wrap{WScalar, WPtr, WSlice, WSlicePtr, WFunc1}[r.Intn(5)]}
 			cs.Text = []string{"on", "off", "on", "off", "true", "false", "", "ON", "1", "on ", "of"}[r.Intn(11)]
 			cell = "unmarshaler-bool-kind"
 		default:
-			cs.T = []TypeSpec{{K: KInt, W: WMap, MapKey: KRes}, {K: KString, W: WMap, MapKey: KRes}, {K: KRes}, {K: KRes, W: WSlice}}[r.Intn(4)]
+			cs.T = []TypeSpec{{K: KInt, W: WMap, MapKey: KRes}, {K: KString, W: WMap, MapKey: KRes}, {K: KRes}, {K: KRes, W: WSlice}, {K: KRes, W: WFunc1}, {K: KRes, W: WFunc1Err}}[r.Intn(6)]
 			key := []string{"cpu", "CPU", "Mem", "g!pu", "!", "", "DISK0", "é"}[r.Intn(8)]
 			if cs.T.W == WMap {
 				val := GenScalarText(r, cs.T.K, 0, 0)
